@@ -179,7 +179,9 @@ func c20HostCases() []c20Host {
 	add("float64", vDouble(0), vDouble(1.5), vDouble(-2.25), vDouble(math.MaxFloat64), vDouble(math.Inf(1)), vDouble(math.NaN()), vDouble(math.SmallestNonzeroFloat64))
 	add("bool", vBool(true), vBool(false))
 	add("string", vString(""), vString("abc"), vString("中文 é 😀"), vString("a\x00b"))
-	add("time", vTime(time.Time{}), vTime(time.Unix(0, 0).UTC()), vTime(time.Date(2020, 2, 29, 1, 2, 3, 456, time.UTC)))
+	add("time", vTime(time.Time{}), vTime(time.Unix(0, 0).UTC()), vTime(time.Date(2020, 2, 29, 1, 2, 3, 456, time.UTC)),
+		// the zero instant in a zone of its own and in the process-local zone, an ordinary instant in another zone
+		vTime(time.Time{}.In(east3)), vTime(time.Unix(-62135596800, 0)), vTime(time.Date(2024, 1, 1, 1, 30, 0, 0, east3)))
 	add("duration", vSpan(0), vSpan(1), vSpan(-time.Hour), vSpan(math.MaxInt64))
 	add("slice", vArray(), vArray(vInt(1)), vArray(vInt(1), vString("a"), vNull()), vArray(vArray(vInt(1)), vDouble(2.5)))
 	add("variant", vNull(), vInt(5), vString("s"), vDouble(math.NaN()), vArray(), vArray(vInt(1), vString("a")), vArray(vArray(vInt(1)), vInt(2)), val{K: "object", S: "o"})
@@ -504,7 +506,7 @@ func TestC20_ExhaustiveHostValues(t *testing.T) {
 }
 
 func genC20Elem(t *rapid.T) val {
-	return rapid.SampledFrom([]val{vNull(), vInt(1), vInt(2), vLong(3), vDouble(2.5), vDouble(math.NaN()), vString("a"), vString(""), vBool(true), vSpan(time.Second),
+	return rapid.SampledFrom([]val{vNull(), vInt(0), vLong(0), vDouble(0), vString("0"), vBool(false), vSpan(0), vInt(1), vInt(2), vLong(3), vDouble(2.5), vDouble(math.NaN()), vString("a"), vString(""), vBool(true), vSpan(time.Second),
 		vTime(time.Unix(1600000000, 0).UTC()), vArray(), vArray(vInt(1)), vArray(vInt(1), vInt(2)), vArray(vInt(1), vInt(2)), vArray(vInt(1), vInt(3)), val{K: "object", S: "o"}}).Draw(t, "el")
 }
 
@@ -571,7 +573,7 @@ func TestC20_ExhaustiveShortHistories(t *testing.T) {
 		{Op: "equals", Slot: 0, Src: 1}, {Op: "getByIndex", Slot: 1, Idx: 0},
 		{Op: "set", Slot: 1, V: vArray()}, {Op: "callerAppend", Slot: 1}, {Op: "callerAppend", Slot: 0}, {Op: "fillGap", Slot: 1, Idx: 1, V: vInt(5)}, {Op: "growFill", Slot: 1, Idx: 1}, {Op: "fromArray", Slot: 0, V: vArray()},
 		{Op: "set", Slot: 0, V: vArray(vArray(vInt(1), vInt(2)), vArray(vInt(1), vInt(2)))}, {Op: "set", Slot: 1, V: vArray(vArray(vInt(1), vInt(2)), vArray(vInt(1), vInt(3)))},
-		{Op: "set", Slot: 1, V: vDouble(1.5)}, {Op: "operand", Slot: 1, Src: 0}, {Op: "viaVariable", Slot: 0, Src: 1}, {Op: "viaVariable", Slot: 1, Src: 0},
+		{Op: "set", Slot: 1, V: vInt(0)}, {Op: "set", Slot: 0, V: vString("abc")}, {Op: "set", Slot: 1, V: vDouble(1.5)}, {Op: "operand", Slot: 1, Src: 0}, {Op: "viaVariable", Slot: 0, Src: 1}, {Op: "viaVariable", Slot: 1, Src: 0},
 	}
 	depth := pick(4, 5)
 	rec.Bounds = fmt.Sprintf("all histories of length 1..%d over %d operations on two variants (array set, scalar set, fromArray, index writes inside and past the end, setLength, clone both ways, assign, clear, equals, getByIndex)", depth, len(alpha))
